@@ -84,27 +84,7 @@ func init() {
 		replay := fs.String("replay", "", "re-run the symbolic scripts of this JSON-lines file")
 		return func(enc *json.Encoder) error {
 			if *replay != "" {
-				f, err := os.Open(*replay)
-				if err != nil {
-					return err
-				}
-				defer f.Close()
-				sc := bufio.NewScanner(f)
-				sc.Buffer(make([]byte, 1<<20), 1<<28)
-				for sc.Scan() {
-					var h History
-					if err := json.Unmarshal(sc.Bytes(), &h); err != nil {
-						return err
-					}
-					var script []SymStep
-					for _, s := range h.Steps {
-						script = append(script, s.Sym)
-					}
-					if err := enc.Encode(runScript(h.ID, h.Seed, h.Profile, h.Cfg, script)); err != nil {
-						return err
-					}
-				}
-				return sc.Err()
+				return replayFile(*replay, enc)
 			}
 			for i := *first; i < *first+*n; i++ {
 				hs := *seed*1000003 + int64(i)
@@ -115,4 +95,28 @@ func init() {
 			return nil
 		}
 	}
+}
+
+func replayFile(path string, enc *json.Encoder) error {
+	f, err := os.Open(path)
+	if err != nil {
+		return err
+	}
+	defer f.Close()
+	sc := bufio.NewScanner(f)
+	sc.Buffer(make([]byte, 1<<20), 1<<28)
+	for sc.Scan() {
+		var h History
+		if err := json.Unmarshal(sc.Bytes(), &h); err != nil {
+			return err
+		}
+		var script []SymStep
+		for _, s := range h.Steps {
+			script = append(script, s.Sym)
+		}
+		if err := enc.Encode(runScript(h.ID, h.Seed, h.Profile, h.Cfg, script)); err != nil {
+			return err
+		}
+	}
+	return sc.Err()
 }
